@@ -25,7 +25,15 @@ Input classes generated on purpose (audit after three rounds of seeded changes):
 * entry points: TimeSeries.plot_psd and TsDB.plot_psd (the curves drawn, Agg backend);
 * histories: the time axis rewritten in place, the GUI path with filters on long-lived objects (against the spelled-out chain,
   not only against a new object), `signal.psd` called repeatedly on ONE array object the caller changes between the calls;
-* an exception while the clauses are evaluated is a failing clause (`safe_evaluate`).
+* an exception while the clauses are evaluated is a failing clause (`safe_evaluate`);
+* fault points (round 6): `guifault` = ONE container of 2-4 series (own step / start / length, the victim at any position) and a
+  sequence of calculate_psd requests of which some cannot be fulfilled for one series (cut-off between the Nyquist frequencies of
+  two series / exactly at one, a window holding one or none of the victim's samples, record too short for the filter) or for all
+  (unknown filter, wrong number of cut-offs, cut-off 0, segment 0): the call raises or leaves that series out — every spectrum
+  handed back is compared with the spelled-out chain of ITS series; ordinary requests follow on the same objects (whole container,
+  sub-containers in another order), and the series' data are unchanged; `history+faults` = copies of the generated histories with
+  rejected psd / get / modify / calculate_psd requests inserted. All of these calls run in a worker thread under a time limit
+  ("the query returns").
 """
 import math
 import random
@@ -51,6 +59,12 @@ RULE = ("short: seeded signals of 1..256 samples (gaussian, tones, ramps, consta
         "guiopt: containers of 1-3 series (own length, step, jitter; one object under two keys) x twin x fargs x nperseg (1..100000, n, n+-1) "
         "x repeated call; plot: TimeSeries.plot_psd / TsDB.plot_psd (names, options); sighist: 3-11 steps on one ndarray (psd with its own "
         "dt / segment settings; in-place scale, shift, replace, single sample); guard: single deviating steps; "
+        "guifault: one container of 2-4 series (own dt / start / length / jitter, victim first / middle / last) x 2-6 calculate_psd calls on the "
+        "same objects: ordinary | rejected for one series (lp hp bp bs cut-off between / at / above Nyquist frequencies, window with 1 / 0 samples "
+        "of the victim, record too short for the filter) | rejected for all (bad filter name / count / 0, nperseg 0) | repeated | sub-container in "
+        "another order; history+faults: generated histories with 1-3 rejected requests inserted (psd / get / modify / calculate_psd: cut-off beyond "
+        "Nyquist, bad filter, window outside the record, resample of a wrong type, unknown keyword, nperseg <= 0, noverlap >= nperseg, nfft < nperseg, "
+        "detrend name); "
         "non-trivial = non-constant signal averaged over >= 2 segments, or a history with >= 2 requests and a data update, or a processed / container case; "
         "distinct by the full case")
 
@@ -583,10 +597,26 @@ def evaluate_history(case):
                 getattr(o["ts"], st["what"])()
             except Exception:  # noqa
                 pass
+        elif op == "fault":
+            # a request that is rejected (part-way) on the long-lived object; the clauses are evaluated on the requests after it
+            res = _timed(lambda: do_fault(o["ts"], st))
+            if res[0] == "timeout":
+                report("a request that is rejected returns (raises) within %g s" % TIME_LIMIT, i, "returns", "no return")
+                return bad
+            if st["what"] == "modify" and res[0] == "done":
+                return bad                              # accepted after all (the data changed): not a fault history
         elif op in ("psd", "gui"):
             norm = bool(st.get("normalize", False))
             tc, xc = o["t"], o["x"]
-            r = call_obj(o["ts"], st)
+            if case.get("timed"):
+                res = _timed(lambda: call_obj(o["ts"], st))
+                if res[0] != "done":
+                    report("after a rejected request on the same object, the next spectrum request returns within %g s" % TIME_LIMIT,
+                           i, "returns", "no return" if res[0] == "timeout" else repr(res[1])[:80])
+                    return bad
+                r = res[1]
+            else:
+                r = call_obj(o["ts"], st)
             fresh = call_obj(TimeSeries("a", tc.copy(), xc.copy()), st)
             ratio = _ratio(xc)
             skipval = not np.isfinite(ratio)             # constant data: the spectrum is rounding noise
@@ -1001,13 +1031,176 @@ def evaluate_sighist(case):
     return bad
 
 
+TIME_LIMIT = 5.0
+
+
+def _timed(fn, limit=TIME_LIMIT):
+    """run `fn()` in a worker thread: ("done", value) / ("raised", exception) / ("timeout",) — a check never hangs"""
+    import threading
+    box = []
+
+    def work():
+        try:
+            box.append(("done", fn()))
+        except BaseException as e:  # noqa
+            box.append(("raised", e))
+    th = threading.Thread(target=work, daemon=True)
+    th.start()
+    th.join(limit)
+    return box[0] if box else ("timeout",)
+
+
+def _fault_kwargs(kw):
+    return {k: (tuple(v) if isinstance(v, list) and k in ("twin", "filterargs") else v) for k, v in (kw or {}).items()}
+
+
+def do_fault(ts, st):
+    """a request the entry point is expected to reject (invalid argument, filter beyond the Nyquist frequency, window
+    outside the record, unknown filter name, ...), made on a long-lived object; the outcome itself is not judged"""
+    from qats.app.funcs import calculate_psd
+    kw = _fault_kwargs(st.get("kwargs"))
+    what = st["what"]
+    if what == "psd":
+        return ts.psd(**kw)
+    if what == "get":
+        return ts.get(**kw)
+    if what == "modify":
+        return ts.modify(**kw)
+    if what == "plot_psd":
+        return ts.plot_psd(show=False, num=_PLOT_NUM + 1, **kw)
+    tw, fa = st.get("twin"), st.get("fargs")
+    return calculate_psd({"a": ts}, tuple(tw) if tw else None, tuple(fa) if fa else None, st.get("nperseg", 64), bool(st.get("normalize", False)))
+
+
+def _peak_info(f, p):
+    try:
+        f, p = np.asarray(f, dtype=float), np.asarray(p, dtype=float)
+        return dict(n=int(f.size), f_last=float(f[-1]) if f.size else None,
+                    f_peak=float(f[int(np.nanargmax(p))]) if p.size and not np.all(np.isnan(p)) else None, p=brief(p, 3))
+    except Exception as e:  # noqa
+        return "%s: %s" % (type(e).__name__, str(e)[:60])
+
+
+def evaluate_guifault(case):
+    """calculate_psd on ONE container of several long-lived series, a sequence of requests of which some cannot be fulfilled
+    for one (or all) of the series: filter cut-off at / above that series' Nyquist frequency, a time window holding one or
+    none of its samples, invalid filter arguments / segment length. Such a request may be rejected (any exception) or leave
+    that series out, but every spectrum handed back must be the spectrum of the series it is labelled with (the definition
+    applied to the spelled-out chain for THAT series); ordinary requests before / after on the same objects (whole container,
+    sub-containers in another order) satisfy the full clauses. Every call runs under a time limit."""
+    from qats import TimeSeries
+    from qats.app.funcs import calculate_psd
+    bad = []
+    sp = case.get("spell") or {}
+    data, objs = {}, {}
+    order = []
+    try:
+        for s_ in case["series"]:
+            t, x = materialise(s_["sig"])
+            objs[s_["key"]] = TimeSeries(s_.get("name", "a"), spell_array(t, sp.get("t", "ndarray")), spell_array(x, sp.get("x", "ndarray")))
+            data[s_["key"]] = (t, x)
+            order.append(s_["key"])
+    except Exception as e:  # noqa
+        return [("the series can be constructed", "TimeSeries", list(_errkind(e)))]
+    for ci, c in enumerate(case["calls"]):
+        keys = c.get("keys") or order
+        container = {k: objs[k] for k in keys}
+        norm = bool(c.get("normalize", False))
+        tw, fa = c.get("twin"), c.get("fargs")
+        tw_ = (list(tw) if sp.get("twin") == "list" else tuple(tw)) if tw else None
+        fa_ = (list(fa) if sp.get("fargs") == "list" else tuple(fa)) if fa else None
+        nps = spell_n(c["nperseg"], sp.get("n"))
+        try:
+            refs = {k: ref_gui(data[k][0], data[k][1], tw_, fa_, c["nperseg"], norm) for k in keys}
+        except Exception:  # noqa  (e.g. a segment length that is not a number: no series accepted)
+            refs = {k: None for k in keys}
+        rejected = [k for k in keys if refs[k] is None or refs[k][0][0] != "ok"]
+        tag = "call %d of %d on the same series objects: calculate_psd(%s, twin=%r, fargs=%r, nperseg=%r)" % (
+            ci + 1, len(case["calls"]), keys, tw, fa, c["nperseg"])
+        wrapc = lambda v, ci=ci: dict(call=ci, value=v)  # noqa
+        if sp.get("args") == "kwcall":
+            res = _timed(lambda: calculate_psd(container=container, twin=tw_, fargs=fa_, nperseg=nps, normalize=norm))
+        else:
+            res = _timed(lambda: calculate_psd(container, tw_, fa_, nps, norm))
+        if res[0] == "timeout":
+            bad.append((tag + ": the query returns (spectra or an exception) within %g s" % TIME_LIMIT, wrapc("returns"), wrapc("no return")))
+            return bad
+        if res[0] == "raised":
+            if not rejected:
+                bad.append((tag + ": the call succeeds for series the definition gives a spectrum for (also after a rejected "
+                            "request on the same objects)", wrapc("spectra"), wrapc(list(_errkind(res[1])) + [str(res[1])[:80]])))
+                return bad
+            continue                                      # rejected as a whole: allowed
+        out = res[1]
+        try:
+            okeys = list(out.keys())
+        except Exception:  # noqa
+            okeys = None
+        want = [k for k in keys if k not in rejected]
+        if okeys is None or [k for k in okeys if k in want] != want or any(k not in keys for k in okeys):
+            bad.append((tag + ": one spectrum per entry of the container the request can be fulfilled for, under the container's keys, "
+                        "in its order", wrapc(want), wrapc(okeys)))
+            return bad
+        for k in okeys:
+            got = out[k]
+            if k in rejected and refs[k] is None:
+                # nothing may be handed back for this series but a marker of absence
+                try:
+                    f, p = got
+                    f, p = np.asarray(f, dtype=float), np.asarray(p, dtype=float)
+                    empty = f.size == 0 or p.size == 0 or np.all(np.isnan(p))
+                except Exception:  # noqa
+                    empty = True
+                if not empty:
+                    twin_of = [k2 for k2 in okeys if k2 != k and k2 not in rejected and np.array_equal(np.asarray(out[k2][0]), f)
+                               and np.array_equal(np.asarray(out[k2][1]), p)]
+                    t_, _x = data[k]
+                    bad.append((tag + " entry %r: this request cannot be fulfilled for this series (TimeSeries.get / psd on it alone reject "
+                                "it: e.g. cut-off not below its Nyquist frequency %.6g Hz, fewer than two of its samples in the window, record "
+                                "too short for the filter), so the call raises or hands back no spectrum for it: a spectrum handed back under "
+                                "a series' key is that series' own (frequencies up to ITS 1/(2 dt), ITS values)" % (k, 0.5 / float(np.mean(np.diff(t_)))),
+                                wrapc(dict(key=k, value="exception, or no spectrum under this key")),
+                                wrapc(dict(key=k, value=_peak_info(f, p), identical_to_entry=twin_of or None))))
+                continue
+            ref, tp, xp, nps_ = refs[k]
+            try:
+                f, p = got
+                r = ("ok", np.asarray(f, dtype=float), np.asarray(p, dtype=float))
+            except Exception as e:  # noqa
+                r = _errkind(e)
+            _cmp_spectrum(bad, tag + " entry %r" % k, r, ref, tp, xp, nps_, None, None, norm,
+                          wrap=lambda v, k=k, ci=ci: dict(call=ci, key=k, value=v))
+        # the series themselves are untouched by a request
+        for k in keys:
+            t_, x_ = data[k]
+            try:
+                same_data = np.array_equal(np.asarray(objs[k].t, dtype=float), t_) and np.array_equal(np.asarray(objs[k].x, dtype=float), x_)
+            except Exception:  # noqa
+                same_data = False
+            if not same_data:
+                bad.append((tag + ": a spectrum request leaves the data of series %r as it was (later spectra are those of the same record)" % k,
+                            wrapc(dict(t=brief(t_, 3), x=brief(x_, 3))), wrapc(dict(t=brief(objs[k].t, 3), x=brief(objs[k].x, 3)))))
+        if bad:
+            break
+    return bad
+
+
 DISPATCH = {"history": evaluate_history, "tsopt": evaluate_tsopt, "guiopt": evaluate_guiopt, "plot": evaluate_plot,
-            "sighist": evaluate_sighist}
+            "sighist": evaluate_sighist, "guifault": evaluate_guifault}
 
 
 def safe_evaluate(case):
     """an exception while evaluating the clauses (an implementation result of unexpected shape / type, ...) is a failing clause"""
     try:
+        if case.get("timed") or case.get("api") == "guifault":
+            # histories with rejected requests: backstop for calls outside the individually timed ones (new objects, references)
+            res = _timed(lambda: evaluate(case), 6 * TIME_LIMIT)
+            if res[0] == "timeout":
+                return [("after a rejected request, spectrum requests on the same / on new objects return within %g s" % (6 * TIME_LIMIT),
+                         "returns", "no return")]
+            if res[0] == "raised":
+                raise res[1]
+            return res[1]
         return evaluate(case)
     except Exception as e:  # noqa
         import traceback
@@ -1361,6 +1554,157 @@ def gen_sighist(rng):
     return dict(api="sighist", sig=sig, steps=steps, spell=dict(x=rng.choice(["ndarray", "view", "rev"])))
 
 
+def gen_guifault(rng):
+    """one container of 2-4 series with their own step / start / length and a sequence of calculate_psd requests on it, of
+    which at least one cannot be fulfilled for one series (any position in the container) or for all of them"""
+    k = rng.choice([2, 2, 3, 3, 4])
+    t0 = rng.choice([0.0, 0.0, 12.5, -3.0, 1000.0])
+    dur = rng.choice([20.0, 40.0, 60.0])
+    dts = rng.sample([0.05, 0.1, 0.25, 0.5, 1.0, 0.37], k)
+    if rng.random() < 0.25:
+        dts[-1] = dts[0]                                    # two series with the same step
+        rng.shuffle(dts)
+    keys = ["a", "Tension [kN]", "dir/f.ts\\b", "b", "psd"]
+    rng.shuffle(keys)
+    victim = rng.randrange(k)
+    late = rng.random() < 0.5                               # the victim's record starts later / ends earlier than the others
+    series, times = [], []
+    for j in range(k):
+        dt = dts[j]
+        n = max(12, int(dur / dt))
+        tj = t0
+        if j == victim:
+            n = max(12, n // 2)
+            tj = t0 + (dur - n * dt if late else 0.0)
+        sig, _ = history_signal(rng, n, dt, tj)
+        if "x" not in sig:
+            jit = rng.choice([0.0, 0.0, 0.0, 0.002, 0.05, 0.3])
+            if jit:
+                sig["jitter"] = dict(amp=jit, seed=rng.randrange(10 ** 9))
+        series.append(dict(key=keys[j], name=rng.choice([keys[j], keys[j], "name-differs-from-key"]), sig=sig))
+        times.append(materialise(sig)[0])
+    fnys = [0.5 / float(np.mean(np.diff(t))) for t in times]
+    npool = [8, 16, 64, 256, 1000, 100000]
+
+    def ordinary(sub=None):
+        ks = sub or list(range(k))
+        u = rng.random()
+        tw = None if u < 0.5 else ([t0 - 1.0, t0 + 2 * dur] if u < 0.7 else [t0 + 0.55 * dur, t0 + 0.95 * dur] if late else [t0 + 0.05 * dur, t0 + 0.45 * dur])
+        fa = pick_fargs(rng, min(fnys[j] for j in ks)) if rng.random() < 0.4 else None
+        c = dict(twin=tw, fargs=fa, nperseg=rng.choice(npool), normalize=rng.random() < 0.25)
+        if sub is not None:
+            c["keys"] = [keys[j] for j in sub]
+        return c
+
+    def fault():
+        mode = rng.choice(["nyq", "nyq", "nyq", "twin1", "twin1", "twin0", "badargs"])
+        c = dict(twin=None, fargs=None, nperseg=rng.choice(npool), normalize=rng.random() < 0.25)
+        if mode == "nyq":
+            lv = sorted(set(fnys))
+            if len(lv) < 2 or rng.random() < 0.15:
+                fc = rng.choice([lv[0], lv[0] * 1.5, lv[-1], lv[-1] * 3.0])      # exactly at a Nyquist frequency / above all of them
+            else:
+                i = rng.randrange(len(lv) - 1)
+                fc = math.sqrt(lv[i] * lv[i + 1])                                # between the Nyquist frequencies of two of the series
+            kind = rng.choice(["lp", "lp", "hp", "bp", "bs"])
+            c["fargs"] = [kind, round(fc, 6)] if kind in ("lp", "hp") else [kind, round(0.3 * lv[0], 6), round(fc, 6)]
+            if rng.random() < 0.3:
+                c["twin"] = [t0 - 1.0, t0 + 2 * dur]
+        elif mode in ("twin1", "twin0"):
+            tv = times[victim]
+            if late:                                        # window from before the records up to the victim's first sample (or just short of it)
+                end = 0.5 * (tv[0] + tv[1]) if mode == "twin1" else tv[0] - 0.5 * (tv[1] - tv[0])
+                c["twin"] = [t0 - 1.0, float(end)]
+            else:                                           # window from the victim's last sample (or just after it) to the end of the records
+                start = 0.5 * (tv[-2] + tv[-1]) if mode == "twin1" else tv[-1] + 0.5 * (tv[-1] - tv[-2])
+                c["twin"] = [float(start), t0 + 2 * dur]
+            if rng.random() < 0.3:
+                c["fargs"] = pick_fargs(rng, min(fnys))
+        else:
+            c["fargs"] = rng.choice([["xx", 1.0], ["lp"], ["lp", 0.0], ["bp", round(0.3 * min(fnys), 6)], ["lowpass", round(0.3 * min(fnys), 6)]])
+            if rng.random() < 0.2:
+                c["fargs"], c["nperseg"] = None, 0
+        return c, mode
+
+    calls, modes = [], []
+    if rng.random() < 0.35:
+        calls.append(ordinary())
+    for _ in range(rng.choice([1, 1, 2])):
+        c, m = fault()
+        calls.append(c)
+        modes.append(m)
+        if rng.random() < 0.3:
+            calls.append(dict(c))                           # the rejected request once more
+    u = rng.random()
+    calls.append(ordinary())
+    if u < 0.5:
+        sub = list(range(k))
+        rng.shuffle(sub)
+        calls.append(ordinary(sub[:rng.randint(1, k)]))     # sub-container of the same objects in another order
+    spell = dict(args=rng.choice(["pos", "kwcall"]), twin=rng.choice(["tuple", "list"]), fargs=rng.choice(["tuple", "tuple", "list"]),
+                 n=rng.choice(["int", "np.int64"]), x=rng.choice(["ndarray", "view", "readonly"]), t=rng.choice(["ndarray", "view", "readonly"]))
+    return dict(api="guifault", series=series, calls=calls, spell=spell), "%s:victim=%s/%d" % (
+        "+".join(modes), "first" if victim == 0 else "last" if victim == k - 1 else "middle", k)
+
+
+def add_faults(rng, case):
+    """copy of a history with 1-3 requests inserted that the entry points reject (on the object in use at that moment); the
+    requests after them are judged as before"""
+    import copy as _copy
+    case = _copy.deepcopy(case)
+    sig = case["sig"]
+    dt = sig["dt"]
+    n = sig.get("n", len(sig.get("x", [])))
+    t0 = sig.get("t0", 0.0)
+    fny = 0.5 / dt
+    far = [t0 + (n + 50) * dt * 1000.0, t0 + (n + 90) * dt * 1000.0]
+
+    def one():
+        what = rng.choice(["psd", "psd", "psd", "gui", "gui", "modify", "get"])
+        if what == "gui":
+            u = rng.randrange(5)
+            st = dict(op="fault", what="gui", nperseg=rng.choice([8, 64, 512]))
+            if u == 0:
+                st["fargs"] = [rng.choice(["lp", "hp"]), round(fny * rng.choice([1.0, 1.7, 40.0]), 6)]
+            elif u == 1:
+                st["fargs"] = rng.choice([["bp", round(0.2 * fny, 6), round(3 * fny, 6)], ["xx", 1.0], ["lp"], ["lp", 0.0], ["lp", -1.0]])
+            elif u == 2:
+                st["twin"] = far
+            elif u == 3:
+                st["twin"] = [t0 + 0.2 * dt, t0 + 0.8 * dt]      # no sample / a single sample inside
+            else:
+                st["nperseg"] = rng.choice([0, -3, "64"])
+            return st
+        kinds = ["nyq", "badfilter", "far", "resample-type", "unknown-kw"] + (["nperseg", "noverlap", "nfft", "detrend"] if what == "psd" else [])
+        u = rng.choice(kinds)
+        if u == "nyq":
+            kw = dict(filterargs=[rng.choice(["lp", "hp"]), round(fny * rng.choice([1.0, 1.7, 40.0]), 6)])
+        elif u == "badfilter":
+            kw = dict(filterargs=rng.choice([["xx", 1.0], ["lp"], ["lp", 0.0], ["bs", round(0.2 * fny, 6), round(3 * fny, 6)]]))
+        elif u == "far":
+            kw = dict(twin=far, resample=dt)
+        elif u == "resample-type":
+            kw = dict(resample=rng.choice(["fast", 1, None]) or "0.1")
+        elif u == "unknown-kw":
+            kw = dict(method="welch")
+        elif u == "nperseg":
+            kw = dict(nperseg=rng.choice([0, -1]))
+        elif u == "noverlap":
+            kw = dict(nperseg=8, noverlap=rng.choice([8, 9]))
+        elif u == "nfft":
+            kw = dict(nperseg=8, nfft=4)
+        else:
+            kw = dict(detrend="nonsense")
+        return dict(op="fault", what=what, kwargs=kw)
+
+    steps = case["steps"]
+    for _ in range(rng.randint(1, 3)):
+        last_req = max(i for i, st in enumerate(steps) if st["op"] in ("psd", "gui"))
+        steps.insert(rng.randint(0, last_req), one())       # at least one request follows every fault
+    case["timed"] = True
+    return case
+
+
 # ----------------------------------------------------------------------------------------------------------
 def run(chk):
     from qats import TimeSeries
@@ -1688,6 +2032,20 @@ def run(chk):
         chk.nontriv(repr(case))
         chk.dist("sighist")
 
+    # ---- fault points: requests that are rejected for one series of a container / on a long-lived object, the same objects used again -------
+    for _ in range(60 if q else 1200):
+        case, label = gen_guifault(rng)
+        oracle_cases.append(case)
+        chk.nontriv(repr(case))
+        chk.dist("guifault:" + label)
+    hist = [c for c in oracle_cases if c.get("api") == "history" and not c.get("timed")
+            and sum(st["op"] in ("psd", "gui") for st in c["steps"]) >= 2]
+    for _ in range(min(len(hist), 50 if q else 1000)):
+        case = add_faults(rng, rng.choice(hist))
+        oracle_cases.append(case)
+        chk.nontriv(repr(case))
+        chk.dist("history+faults:%s" % ("long" if case["checks"] else "short"))
+
     # ---- evaluate the clauses -----------------------------------------------------------------------------------------------------------------
     for case in oracle_cases:
         chk.count("oracles:" + case["api"])
@@ -1717,8 +2075,14 @@ def replay(rp):
         print("FAILS:", clause)
         print("   expected:", exp)
         print("   observed:", obs)
+    if case.get("api") == "guifault":
+        print("series:", ", ".join("%r (dt %g, %d samples from t = %g)" % (s_["key"], s_["sig"]["dt"], s_["sig"].get("n", len(s_["sig"].get("x", []))),
+                                                                         s_["sig"].get("t0", 0.0)) for s_ in case["series"]))
+        for i, c in enumerate(case["calls"]):
+            print("call %d:" % i, {k: v for k, v in c.items() if v is not None and v is not False})
     if case.get("api") in ("history", "sighist"):
-        print("history:", " -> ".join(st["op"] + ("(%r)" % st["v"] if "v" in st else "") for st in case["steps"]))
+        print("history:", " -> ".join(st["op"] + ("(%r)" % st["v"] if "v" in st else "") + ("[%s %s]" % (st["what"], st.get("kwargs") or {k: st[k] for k in ("twin", "fargs", "nperseg") if k in st})
+                                                                                            if st["op"] == "fault" else "") for st in case["steps"]))
     if case.get("api") in ("signal", "ts", "gui") and not case.get("twin"):
         # also show the model's answer
         try:
